@@ -595,6 +595,9 @@ class _Graph:
         if (mid, sid) not in self.fnc:
             ann = f"K{sid + 1}" if self.sigmode == "cls" else f"Literal[{sid}, 'z{sid}']"
             src = f"def m{mid}(x: {ann}):\n    LOG.append({mid})\n    return call_next(x)\n"
+            if sid == getattr(self, "badsig", 0):
+                # Ovld.tla BadSig: a method under this signature cannot be built (call_next used as a value)
+                src = f"def m{mid}(x: {ann}):\n    LOG.append({mid})\n    nxt = call_next\n    return nxt(x)\n"
             self.fnc[(mid, sid)] = self.make_fn(f"m{mid}", src)
         return self.fnc[(mid, sid)]
 
@@ -727,6 +730,15 @@ def graph_replay(jobs):
     for job in jobs:
         nsig = job.get("nsig", 2)
         g = _Graph(nsig, job.get("sigmode", "cls"))
+        g.badsig = job.get("badsig", 0)
+
+        def unbuildable(k):
+            return any(s_ == g.badsig for (s_, _r) in g.eff(k))
+
+        def config_error(e):
+            # the rebuild of a node in use failed: the change itself stays, the error is reported
+            return g.badsig and type(e).__name__ == "UsageError"
+
         steps = []
         drift = None
         N = job["n"]
@@ -749,9 +761,17 @@ def graph_replay(jobs):
                         g.fns[o["m"]] = fn
                         g.pushdown(g.own[n], o["sid"], 0, o["m"])
                     except Exception as e:
-                        if "locked" not in str(e):
+                        if config_error(e):
+                            rec["out"] = "config"
+                            g.fns[o["m"]] = fn
+                            g.pushdown(g.own[n], o["sid"], 0, o["m"])
+                        elif "locked" not in str(e):
                             raise
-                        rec["out"] = "refused"
+                        else:
+                            rec["out"] = "refused"
+                elif o["op"] == "unregister" and o["m"] not in g.fns:
+                    # the model registered this method; the code had refused it (already reported as drift at that step)
+                    rec["out"] = "absent"
                 elif o["op"] == "unregister":
                     try:
                         g.nodes[n].unregister(g.fns[o["m"]])
@@ -760,22 +780,43 @@ def graph_replay(jobs):
                         # the gap in the signature's chain is closed (Ovld.tla DropClose)
                         g.own[n] = {(s, -sum(1 for (s2, r2) in kept if s2 == s and r2 > r)): v for (s, r), v in kept.items()}
                     except Exception as e:
-                        if "locked" not in str(e):
+                        if config_error(e):
+                            rec["out"] = "config"
+                            kept = {k: v for k, v in g.own[n].items() if v != o["m"]}
+                            g.own[n] = {(s, -sum(1 for (s2, r2) in kept if s2 == s and r2 > r)): v for (s, r), v in kept.items()}
+                        elif "locked" not in str(e):
                             raise
-                        rec["out"] = "refused"
+                        else:
+                            rec["out"] = "refused"
                 elif o["op"] == "add_mixins":
                     try:
                         g.nodes[n].add_mixins(*[g.nodes[p] for p in o["mixins"]])
                         rec["out"] = "ok"
                         g.mix[n] += list(o["mixins"])
                     except Exception as e:
-                        if "locked" not in str(e):
+                        if config_error(e):
+                            rec["out"] = "config"
+                            g.mix[n] += list(o["mixins"])
+                        elif "locked" not in str(e):
                             raise
-                        rec["out"] = "refused"
+                        else:
+                            rec["out"] = "refused"
+                elif o["op"] == "use" and g.badsig:
+                    # the outcome of putting the node to use: built, or a configuration error
+                    try:
+                        g.nodes[n].compile() if not g.nodes[n]._compiled else None
+                        rec["out"] = "ok"
+                    except Exception as e:
+                        if not config_error(e):
+                            raise
+                        rec["out"] = "config"
                 steps.append(rec)
                 # probes: the used node, and every node already built (no side effect)
-                targets = [n] if o["op"] == "use" else []
-                targets += [k for k, ov in g.nodes.items() if ov._compiled and k not in targets]
+                targets = [n] if o["op"] == "use" and not (g.badsig and unbuildable(n)) else []
+                if not job.get("sparse"):
+                    # (sparse: only the node put to use is probed, so that nodes in use are rebuilt several times in a row
+                    # without serving a call in between)
+                    targets += [k for k, ov in g.nodes.items() if ov._compiled and k not in targets]
                 for k in targets:
                     if job.get("recurse", True):
                         for a in sorted(g.ancestors(k) | {k}):
